@@ -8,6 +8,36 @@ open SdnsVerif.Model SdnsVerif.Model.WirePath SdnsVerif.Model.Util
 structure State where
   /-- `Store.sharedDenialImpossible` of the running `lad` instance -/
   denialImpossible : Bool := false
+  rlWire : RLState := {}
+  rlMsg : RLState := {}
+  rlRate : Nat := 0
+  zones : List (List String) := []
+
+def lowerAscii (s : String) : String := s.map fun c => if 'A' ≤ c ∧ c ≤ 'Z' then Char.ofNat (c.toNat + 32) else c
+
+/-- presentation name (no escapes) to lower-cased labels -/
+def labelsOf (name : String) : List String := ((lowerAscii name).splitOn ".").filter (· ≠ "")
+
+def wfStr (w : WriterFacts) : String :=
+  s!"next/size={w.size}/do={boolStr w.dnssecOK}/ne={boolStr w.noedns}/nsid={boolStr w.nsidAsked}/ka={boolStr w.keepalive}" ++
+  s!"/noad={boolStr w.noad}/rus={w.respUDPSize}/ck={bytesHex (w.cookie.map UInt8.ofNat)}"
+
+def ednsStr : EdnsOut → String
+  | .next w => wfStr w
+  | .notimp => "reply/rcode=4"
+  | .badvers => "reply/rcode=16"
+
+def rlStr : RLOut → String
+  | .next => "next" | .drop => "drop" | .badcookie => "reply23"
+
+def asStr (qtype : Nat) : ASOut → String
+  | .next => "next"
+  | .reply whole zone =>
+    let z := ".".intercalate zone ++ "."
+    let (an, ns) := if qtype == 2 then (if whole then ("2", "-") else ("-", "6"))
+                    else if qtype == 6 then (if whole then ("6", "-") else ("-", "6"))
+                    else ("-", "6")
+    s!"reply/rc={if whole then 0 else 3}/aa=t/an={an}/ns={ns}/zone={z}"
 
 def kvGet (ws : List String) (k : String) : Option String :=
   ws.findSome? fun w =>
@@ -47,6 +77,54 @@ def stampStr (r : Option (List Nat × Bool)) : String :=
 
 def step (st : State) (w : List String) : State × String :=
   match w with
+  | "rl" :: "new" :: kv =>
+    match (kvGet kv "rate").bind String.toNat? with
+    | some n => ({ st with rlWire := { tokens := n }, rlMsg := { tokens := n }, rlRate := n }, "ok")
+    | none => (st, "bad-op")
+  | "rl" :: "step" :: kv =>
+    let g := kvGet kv
+    let ck : Option (Option (Nat × Half)) := match g "ck" with
+      | some "-" => some none
+      | some c => match c.splitOn ":" with
+        | [cid, h] => match cid.toNat?, h with
+          | some n, "n" => some (some (n, Half.none))
+          | some n, "g" => some (some (n, Half.good))
+          | some n, "b" => some (some (n, Half.bad))
+          | _, _ => none
+        | _ => none
+      | none => none
+    match ck with
+    | some ck =>
+      let replay := bflag (g "replay")
+      let i : RLIn := { udp := g "proto" == some "udp", ck := ck, replay := replay,
+                        exempt := st.rlRate == 0 || bflag (g "lo") }
+      let (sw, ow) := rlWire st.rlWire i
+      if replay then ({ st with rlWire := sw }, s!"w={rlStr ow} m=-")
+      else
+        let (sm, om) := rlMsg st.rlMsg i
+        ({ st with rlWire := sw, rlMsg := sm }, s!"w={rlStr ow} m={rlStr om}")
+    | none => (st, "bad-op")
+  | "as" :: "new" :: kv =>
+    match kvGet kv "zones" with
+    | some z => ({ st with zones := (z.splitOn ",").map labelsOf }, "ok")
+    | none => (st, "bad-op")
+  | "as" :: "run" :: kv =>
+    match kvGet kv "name", (kvGet kv "qt").bind String.toNat? with
+    | some name, some qt =>
+      let ls := labelsOf name
+      (st, s!"w={asStr qt (asWire st.zones ls qt)} m={asStr qt (asMsg st.zones ls qt)}")
+    | _, _ => (st, "bad-op")
+  | "ed" :: "serve" :: kv =>
+    let p : Proto := match kvGet kv "proto" with
+      | some "udp" => .udp
+      | some "tcp" => .tcp
+      | _ => .other
+    match (kvGet kv "pkt").bind natBytes with
+    | some b =>
+      match parseWire b with
+      | some f => (st, s!"w={ednsStr (ednsServeWireBorn f p)} m={ednsStr (ednsMsg (dreqOfFacts f) p)}")
+      | none => (st, "w=none m=skip")
+    | none => (st, "bad-op")
   | [_, "new"] => (st, "ok")
   | "e2e" :: _ => (st, "unmodelled")
   | ["pw", "parse", h] =>
@@ -99,6 +177,24 @@ def step (st : State) (w : List String) : State × String :=
     | _, _, _ => (st, "bad-op")
   | "lad" :: "new" :: kv =>
     ({ st with denialImpossible := !(bflag (kvGet kv "r8198")) }, "ok")
+  | "lad" :: "hdr" :: kv =>
+    let g := kvGet kv
+    match (g "fl").bind String.toNat?, (g "p").bind String.toNat? with
+    | some fl, some poison =>
+      let rd := fl.testBit 8
+      let cd := fl.testBit 4
+      let ad := fl.testBit 5
+      let noad := ednsNoAD cd ad (bflag (g "do"))
+      let r : Option (Nat × Nat) := match g "kind" with
+        | some "exact" => some (ednsWriteWireFlags noad (wireHitFlags 0x8180 rd cd), msgHitFlags 0x8180 rd cd noad)
+        | some "exactad" => some (ednsWriteWireFlags noad (wireHitFlags 0x81A0 rd cd), msgHitFlags 0x81A0 rd cd noad)
+        | some "cut" => some (ednsWriteWireFlags noad (wireCutFlags rd cd), msgCutFlags rd noad)
+        | some "fail" => some (ednsWriteWireFlags noad (wireFailureFlags (poison * 257) rd cd), msgFailureFlags rd cd)
+        | _ => none
+      match r with
+      | some (w, m) => (st, s!"wire={w} msg={m}")
+      | none => (st, "bad-op")
+    | _, _ => (st, "bad-op")
   | "lad" :: "run" :: kv =>
     let g := kvGet kv
     let ex := bflag (g "ex")
@@ -110,7 +206,10 @@ def step (st : State) (w : List String) : State × String :=
     let q : Req := { rd := true, hasECS := false, cd := bflag (g "cd"), typeKnown := true, classKnown := true }
     let l : Lookups := { exactHit := ex, cut := cut, cutWire := cut, denial := false, failure := fk, failureWire := fk,
                          witnessHolds := true, denialImpossible := st.denialImpossible }
-    let s := wireLadder q l {}
+    -- the signed proof of a cut does not fit a DO client's 512-octet UDP buffer (the
+    -- stripped DO=0 template is a lone SOA and fits): the cut's byte serve declines on size
+    let cutFits := !(bflag (g "small") && bflag (g "do"))
+    let s := wireLadder q l { sizeOK := cutFits }
     (st, s!"wire={outStr s.out} msg={rungStr (msgLadder q l)}")
   | _ => (st, "bad-op")
 
